@@ -174,27 +174,97 @@ func startCall(cl mcp.Connector, method, name string, dl time.Duration) *call {
 		t0 := time.Now()
 		var marker string
 		var err error
-		if method == "tools/list" {
+		// classify turns the marker text found in a result into valid | foreign | odd | other:<text>
+		classify := func(text, valid string) string {
+			switch text {
+			case valid:
+				return "valid"
+			case "foreign":
+				return "foreign"
+			case "odd":
+				return "odd"
+			}
+			return "other:" + clip(text, 40)
+		}
+		// item names of list results are "<marker>-<suffix>"; the first item that is not "other" decides
+		names := func(ns []string, suffix string) string {
+			m := "empty"
+			for _, n := range ns {
+				k := classify(strings.TrimSuffix(n, suffix), "valid")
+				if m == "empty" || (strings.HasPrefix(m, "other:") && !strings.HasPrefix(k, "other:")) {
+					m = k
+				}
+			}
+			return m
+		}
+		switch method {
+		case "tools/list":
 			var res *mcp.ListToolsResult
 			res, err = cl.ListTools(ctx, &mcp.ListToolsRequest{})
 			if err == nil {
-				marker = "empty"
+				var ns []string
 				if res != nil {
 					for _, t := range res.Tools {
-						switch t.Name {
-						case "valid-tool":
-							marker = "valid"
-						case "foreign-tool":
-							marker = "foreign"
-						default:
-							if marker == "empty" {
-								marker = "other:" + clip(t.Name, 40)
-							}
-						}
+						ns = append(ns, t.Name)
+					}
+				}
+				marker = names(ns, "-tool")
+			}
+		case "prompts/list":
+			var res *mcp.ListPromptsResult
+			res, err = cl.ListPrompts(ctx, &mcp.ListPromptsRequest{})
+			if err == nil {
+				var ns []string
+				if res != nil {
+					for _, t := range res.Prompts {
+						ns = append(ns, t.Name)
+					}
+				}
+				marker = names(ns, "-prompt")
+			}
+		case "resources/list":
+			var res *mcp.ListResourcesResult
+			res, err = cl.ListResources(ctx, &mcp.ListResourcesRequest{})
+			if err == nil {
+				var ns []string
+				if res != nil {
+					for _, t := range res.Resources {
+						ns = append(ns, t.Name)
+					}
+				}
+				marker = names(ns, "-res")
+			}
+		case "resources/read":
+			rq := &mcp.ReadResourceRequest{}
+			rq.Params.URI = "file:///c07/" + name
+			var res *mcp.ReadResourceResult
+			res, err = cl.ReadResource(ctx, rq)
+			if err == nil {
+				marker = "empty"
+				if res != nil && len(res.Contents) > 0 {
+					marker = "other"
+					if tc, ok := res.Contents[0].(mcp.TextResourceContents); ok {
+						marker = classify(tc.Text, "valid:"+name)
 					}
 				}
 			}
-		} else {
+		case "prompts/get":
+			rq := &mcp.GetPromptRequest{}
+			rq.Params.Name = name
+			var res *mcp.GetPromptResult
+			res, err = cl.GetPrompt(ctx, rq)
+			if err == nil {
+				marker = "empty"
+				if res != nil && len(res.Messages) > 0 {
+					marker = "other"
+					if tc, ok := res.Messages[0].Content.(mcp.TextContent); ok {
+						marker = classify(tc.Text, "valid:"+name)
+					} else if tc, ok := res.Messages[0].Content.(*mcp.TextContent); ok && tc != nil {
+						marker = classify(tc.Text, "valid:"+name)
+					}
+				}
+			}
+		default:
 			rq := &mcp.CallToolRequest{}
 			rq.Params.Name = name
 			rq.Params.Arguments = map[string]interface{}{"k": "v"}
@@ -205,14 +275,7 @@ func startCall(cl mcp.Connector, method, name string, dl time.Duration) *call {
 				if res != nil && len(res.Content) > 0 {
 					marker = "other"
 					if tc, ok := res.Content[0].(mcp.TextContent); ok {
-						switch tc.Text {
-						case "valid:" + name:
-							marker = "valid"
-						case "foreign":
-							marker = "foreign"
-						default:
-							marker = "other:" + clip(tc.Text, 40)
-						}
+						marker = classify(tc.Text, "valid:"+name)
 					}
 				}
 			}
@@ -474,9 +537,12 @@ func runScript(rep *vh.Reporter, sc *Script, tmp string, seed int64) {
 		return
 	}
 	cl := x.cl
-	canNotify := kind == "streamable-get" || kind == "stdio"
-	if canNotify || (kind == "streamable-sse" && sc.WithHandler) {
+	// GET-stream and stdio scripts run with a notification handler (the later-frames oracle needs it) unless the
+	// script asks for a client without any; Streamable POST-answer scripts register one when the script says so.
+	canNotify := (kind == "streamable-get" || kind == "stdio") && !sc.NoHandler
+	if canNotify || ((kind == "streamable-sse" || kind == "streamable-json") && sc.WithHandler) {
 		cl.RegisterNotificationHandler("notifications/verif", handler)
+		x.obs["notification_handler_registered"] = true
 	}
 	cl.SetRootsProvider(mcp.NewDefaultRootsProvider(mcp.Root{URI: "file:///c07", Name: "c07"}))
 	rep.Eval(1)
@@ -526,7 +592,7 @@ func runScript(rep *vh.Reporter, sc *Script, tmp string, seed int64) {
 			b, _ := json.Marshal(x.obs)
 			fmt.Fprintf(os.Stderr, "TRACE %s => %s %s\n", sc.label(), outcome, b)
 		}
-		if sc.Idx%61 == 7 {
+		if sc.Idx%61 == 7 || (sc.Expect != "" && sc.Idx%53 == 11) {
 			rep.Sample(map[string]interface{}{"script": describeScript(sc), "outcome": outcome, "observed": x.obs})
 		}
 	}
@@ -651,6 +717,8 @@ func runScript(rep *vh.Reporter, sc *Script, tmp string, seed int64) {
 		} else {
 			x.viol("hangs", "the affected call did not return within its deadline + 3 s")
 		}
+	case sc.Expect != "":
+		probeOutcome = x.judgeSameID(po)
 	case po.Err != "":
 		if po.AtDL && !sc.NoAnswer && !sc.Race {
 			x.obs["script_fully_played"] = x.scriptPlayed()
@@ -841,6 +909,45 @@ func runScript(rep *vh.Reporter, sc *Script, tmp string, seed int64) {
 	// ---- 9. Close ----
 	doClose(!transportDead && (streamAlive || !streamKind))
 	finish(probeOutcome)
+}
+
+// judgeSameID judges the probe of a same-id script (sameid.go): a frame of the wrong kind that bears the id of the
+// call in flight stood next to the call's well-formed answer. The call returned (po.Returned).
+func (x *scriptRun) judgeSameID(po callOut) string {
+	sc, rep := x.sc, x.rep
+	rep.Count("sameid_probes_judged", 1)
+	rep.Count("sameid_probes_judged_"+sc.Kind, 1)
+	sent := "the well-formed answer " + clip(validAnswer(sc.ProbeMethod, false), 200) + " (with the call's id) was sent on the same stream"
+	switch {
+	case po.Err == "" && po.Marker == "valid":
+		rep.Count("sameid_probes_returned_the_sent_answer", 1)
+		rep.Count("sameid_sent_answer_returned_"+sc.Kind, 1)
+		rep.SetAdd("sameid_call_types_that_returned_the_sent_answer", sc.ProbeMethod)
+		hk := "without-handler"
+		if x.obs["notification_handler_registered"] == true {
+			hk = "with-handler"
+		}
+		rep.SetAdd("sameid_handler_modes_that_returned_the_sent_answer", sc.Kind+"/"+hk)
+		rep.Count("sameid_sent_answer_returned_"+sc.Kind+"_"+hk, 1)
+		return "result-valid"
+	case po.Err != "":
+		if po.AtDL {
+			x.obs["script_fully_played"] = x.scriptPlayed()
+			x.viol("hangs", fmt.Sprintf("the script had ended the exchange, yet the affected call returned only at its %s context deadline", callDeadline))
+			return "error"
+		}
+		if sc.Expect == "valid" {
+			x.viol("answer-lost", "a well-formed server-to-client request (its id space is independent of the client's) happened to bear the id of the call in flight; "+sent+", yet the call failed: "+po.Err)
+			return "error"
+		}
+		rep.Count("sameid_probes_failed_with_an_error", 1)
+		return "error"
+	case po.Marker == "odd" && sc.Expect == "valid-or-error-or-odd":
+		rep.Count("sameid_probes_returned_the_odd_frames_own_result", 1)
+		return "result-lenient"
+	}
+	x.viol("wrong-kind-frame-taken-as-answer", fmt.Sprintf("a frame that bears the id of the call in flight but is no response (it has neither the result the call returned nor an error) was taken as the call's answer: the call returned success with %q; %s and its content was not returned", po.Marker, sent))
+	return "result-" + strings.SplitN(po.Marker, ":", 2)[0]
 }
 
 // ownPipesOnly: every error in the list is "file already closed" on one of the client's own pipe ends.
